@@ -305,6 +305,14 @@ def generate(flavour, out):
         p = os.path.join(out, rel)
         if not os.path.exists(p):
             raise TwinError(f"harness target {rel} missing in the current tree")
+        if rel in expected_new:
+            # a generated (lifted) module: the harness module is simply appended to it
+            local = os.path.join(out, "verif_harness", flavour, rel)
+            os.makedirs(os.path.dirname(local), exist_ok=True)
+            shutil.copy(full, local)
+            with open(p, "a") as f:
+                f.write(f'\n#[allow(dead_code, unused)]\n#[path = "{local}"]\nmod verif_kani;\n')
+            continue
         # The harness file is copied into the twin so that replay can append generated tests to it.
         local = os.path.join(out, "verif_harness", flavour, rel)
         os.makedirs(os.path.dirname(local), exist_ok=True)
